@@ -90,7 +90,7 @@ class Run:
             safe = "".join(ch if ch.isalnum() or ch in "._-" else "_" for ch in o["key"])[:150]
             path = vdir / f"{self.prop}_{safe}.json"
             path.write_text(json.dumps({"property": self.prop, "root": str(self.root), **o}, indent=1))
-            print(f"  {o['rule']} at {o['site']}: {o['what']}")
+            print(f"  {o['key']} at {o['site']}: {o['what']}")
             print(f"VIOLATION property={self.prop} replay={path}")
         if write_evidence and self.only_key is None:
             self.write_evidence(known_hits, violations)
